@@ -67,9 +67,37 @@ def stage_from_tasks(prog, sd) -> str:
     return "SUCCEEDED"
 
 
+def _closure(prog, start: str) -> set[str]:
+    """stages all of whose (non-empty) prerequisites lie in the scope grown from `start`"""
+    scope = {start}
+    changed = True
+    while changed:
+        changed = False
+        for s in prog["stages"]:
+            if s["ref"] not in scope and s["req"] and all(r in scope for r in s["req"]):
+                scope.add(s["ref"])
+                changed = True
+    return scope - {start}
+
+
+def forward_jumps(prog) -> tuple[set[str], set[str]]:
+    """(stages bypassed by a forward jump, jump targets that start without their prerequisites)"""
+    skipped: set[str] = set()
+    targets: set[str] = set()
+    for sd in prog["stages"]:
+        for td in sd["tasks"]:
+            if td["k"] == "jump" and td["n"] >= 1 and max_jumps(prog) >= 1:
+                tgt = td["target"]
+                if tgt != sd["ref"] and sd["ref"] not in descendants(prog, tgt):
+                    skipped |= _closure(prog, sd["ref"]) - ({tgt} | descendants(prog, tgt))
+                    targets.add(tgt)
+    return skipped, targets
+
+
 def ideal(prog) -> dict:
     st: dict[str, str] = {}
     order = [s["ref"] for s in prog["stages"] if not s["parent"]]
+    fwd_skipped, fwd_targets = forward_jumps(prog)
     # stages are listed in a topological order by construction; iterate until stable anyway
     for _ in range(len(order) + 1):
         for ref in order:
@@ -87,7 +115,11 @@ def ideal(prog) -> dict:
                 ok = sum(cont) >= sd["thr"]
             else:
                 ok = all(cont)
-            if not ok:
+            if ref in fwd_skipped:
+                st[ref] = "SKIPPED"
+            elif ref in fwd_targets:
+                st[ref] = stage_from_tasks(prog, sd)
+            elif not ok:
                 st[ref] = "NOT_STARTED"
             elif sd["enabled"] is False:
                 st[ref] = "SKIPPED"
